@@ -223,6 +223,21 @@ def worker(sh):
                     data[0] &= 0xef if (data[0] & 0x1f) >= 0x1a else 0xff
             lines2.append('c.%s_decenc %d %s' % (cn, comp, bytes(data).hex()))
             meta2.append((gc, 'random-string', comp, bytes(data), None))
+        # every combination of the three flag bits over a zero payload and over a valid x payload, in both forms
+        # (covers e.g. the identity encoding carrying the other form's compression flag)
+        k0 = next((k for k in ks if tab.mul(k) is not None and encs.get((which, k, 1))), None)
+        for comp in (0, 1):
+            n = nf if comp else 2 * nf
+            for fl in range(8):
+                z = bytearray(n)
+                z[0] = fl << 5
+                lines2.append('c.%s_decenc %d %s' % (cn, comp, bytes(z).hex()))
+                meta2.append((gc, 'flags%d%d%d-zero-payload' % (fl >> 2, (fl >> 1) & 1, fl & 1), comp, bytes(z), None))
+                if k0 is not None:
+                    v = bytearray(encs[(which, k0, 1 if comp else 0)])
+                    v[0] = (v[0] & 0x1f) | (fl << 5)
+                    lines2.append('c.%s_decenc %d %s' % (cn, comp, bytes(v).hex()))
+                    meta2.append((gc, 'flags%d%d%d-valid-payload' % (fl >> 2, (fl >> 1) & 1, fl & 1), comp, bytes(v), None))
         for comp in (0, 1):
             n = nf if comp else 2 * nf
             for label, data in (('all-ff', b'\xff' * n), ('all-zero', bytes(n)), ('only-comp-flag', bytes([F_COMP]) + bytes(n - 1))):
@@ -299,7 +314,8 @@ def run(ctx):
                      'c.%s_unmarshal|%s/reject:malformed-infinity' % (G, c), 'c.%s_unmarshal|%s/reject:wrong-form-flag' % (G, c)]
         need += ['c.%s_unmarshal|comp/reject:x-has-no-y' % G, 'c.%s_unmarshal|unc/reject:off-curve' % G, 'c.%s_unmarshal|unc/reject:greater-flag-on-uncompressed' % G,
                  'c.%s_unmarshal|unc/reject:flag-bits-in-later-field' % G, 'c.%s_unmarshal|comp/accept/flip-greater' % G, 'c.%s_marshal|comp/identity' % G]
-    need += ['c.g2_unmarshal|comp/reject:flag-bits-in-later-field']
+    need += ['c.g2_unmarshal|comp/reject:flag-bits-in-later-field', 'c.g1_unmarshal|comp/reject:wrong-form-flag/flags010-zero-payload', 'c.g2_unmarshal|unc/reject:wrong-form-flag/flags110-zero-payload',
+             'c.g1_unmarshal|comp/accept/flags110-zero-payload', 'c.g1_unmarshal|unc/accept/flags010-zero-payload']
     for r in need:
         if not any(k.startswith(r) for k in ctx.classes):
             ctx.required_classes.add(r)
